@@ -50,7 +50,8 @@ Inductive pcase :=
 | PDecSame (ty : int) (b : pbytes)            (* accepted and re-encoded to the same bytes *)
 | PItem (b : pbytes) (r : option pbytes)
 | PItemSame (b : pbytes)
-| PStream (ty : int) (b : pbytes) (r : option (pbytes * int)).
+| PStream (ty : int) (b : pbytes) (r : option (pbytes * int))
+| PRej (ty : int) (stream : bool) (b : pbytes) (cls : bool).
 
 Definition unpack_case (c : pcase) : case :=
   match c with
@@ -61,6 +62,7 @@ Definition unpack_case (c : pcase) : case :=
   | PItemSame b => let x := unpack b in CItem x (Some x)
   | PStream ty b r =>
     CStream (n_of_int ty) (unpack b) (option_map (fun p => (unpack (fst p), n_of_int (snd p))) r)
+  | PRej ty stream b cls => CRej (n_of_int ty) stream (unpack b) cls
   end.
 
 Definition pmismatches (t : table) (l : list pcase) : list N :=
